@@ -14,7 +14,7 @@ import (
 
 func TestMain(m *testing.M) {
 	document.SetGlobalLevel(document.LogLevelSilent)
-	kit.TestMain(m, 2000, 30000)
+	kit.TestMain(m, 1500, 30000)
 }
 
 var (
@@ -22,7 +22,35 @@ var (
 	orderedTypes = listTypes[1:]
 	bullets      = []string{string(document.BulletTypeDot), string(document.BulletTypeCircle), string(document.BulletTypeSquare), string(document.BulletTypeDash), string(document.BulletTypeArrow)}
 	unknownIDs   = []string{"0", "-1", "999", "abc", "", "01", " 1", "1000000"}
+	// symbols other than the five constants (BulletType is a string type): multi-byte, ASCII, XML-special, a string the
+	// library generates itself as the level text of ordered lists, a string with the separator of composite keys
+	customBullets = []string{"★", "✓", "-", "*", "o", "%1.", "§", "👉", "<&>", "a_b", "•_0"}
+	bigStarts     = []int{10, 11, 12, 19, 99, 100, 101, 255, 256, 999, 1000, 32767, 32768, 65535, 65536, 100000}
 )
+
+// genBullet: one of the five BulletType constants; 1 in 12 another symbol.
+func genBullet(t *rapid.T) string {
+	if weighted(t, "symk", 11, 1) == 1 {
+		return rapid.SampledFrom(customBullets).Draw(t, "sym-custom")
+	}
+	return rapid.SampledFrom(bullets).Draw(t, "sym")
+}
+
+// genStart: 0..9; 1 in 8 a start number with more digits / at a power of two.
+func genStart(t *rapid.T) int {
+	if weighted(t, "startk", 7, 1) == 1 {
+		return rapid.SampledFrom(bigStarts).Draw(t, "start-big")
+	}
+	return rapid.IntRange(0, 9).Draw(t, "start")
+}
+
+// burst: a count from the usual small range; 1 case in `one` from 9..hi (past 9, 10, 16, 32, 64).
+func burst(t *rapid.T, label string, lo, n, one, hi int) int {
+	if weighted(t, label+"-burst", one-1, 1) == 1 {
+		return rapid.SampledFrom([]int{9, 10, 11, 12, 16, 17, 33, 65, hi}).Filter(func(v int) bool { return v <= hi }).Draw(t, label+"-many")
+	}
+	return rapid.IntRange(lo, n).Draw(t, label)
+}
 
 func text(t *rapid.T, label string) string {
 	s, _ := gen.Text(t, label, gen.Expressible...)
@@ -30,7 +58,7 @@ func text(t *rapid.T, label string) string {
 }
 
 func shortText(t *rapid.T, label string) string {
-	return rapid.SampledFrom([]string{"a", "body", "See", "x y", "中文", ""}).Draw(t, label)
+	return rapid.SampledFrom([]string{"a", "body", "See", "x y", "中文", "", "[1]", "[尾注1]"}).Draw(t, label)
 }
 
 func genLevel(t *rapid.T) int {
@@ -53,13 +81,13 @@ func genItem(t *rapid.T, prev []Item) Item {
 	} else {
 		it.Type = rapid.SampledFrom(listTypes).Draw(t, "ltype")
 		if it.Type == "bullet" {
-			it.Bullet = rapid.SampledFrom(bullets).Draw(t, "sym")
+			it.Bullet = genBullet(t)
 		} else if rapid.IntRange(0, 3).Draw(t, "symo") == 0 {
-			it.Bullet = rapid.SampledFrom(bullets).Draw(t, "sym")
+			it.Bullet = genBullet(t)
 		}
 		it.Level = genLevel(t)
 	}
-	it.Start = rapid.IntRange(0, 9).Draw(t, "start")
+	it.Start = genStart(t)
 	return it
 }
 
@@ -71,7 +99,7 @@ func genListOp(t *rapid.T, prev *[]Item) Op {
 		*prev = append(*prev, it)
 		return Op{K: k, Text: it.Text, Type: it.Type, Bullet: it.Bullet, Level: it.Level, Start: it.Start}
 	case "bullet":
-		it := Item{Type: "bullet", Bullet: rapid.SampledFrom(bullets).Draw(t, "sym"), Level: genLevel(t)}
+		it := Item{Type: "bullet", Bullet: genBullet(t), Level: genLevel(t)}
 		*prev = append(*prev, it)
 		return Op{K: k, Text: text(t, "ltext"), Bullet: it.Bullet, Level: it.Level}
 	case "numbered":
@@ -79,7 +107,7 @@ func genListOp(t *rapid.T, prev *[]Item) Op {
 		*prev = append(*prev, it)
 		return Op{K: k, Text: text(t, "ltext"), Type: it.Type, Level: it.Level}
 	case "multilevel":
-		n := rapid.IntRange(1, 4).Draw(t, "nitems")
+		n := burst(t, "nitems", 1, 4, 25, 70)
 		o := Op{K: k}
 		for i := 0; i < n; i++ {
 			it := genItem(t, *prev)
@@ -99,12 +127,23 @@ func genNoteOp(t *rapid.T) Op {
 	case "fnrun":
 		return Op{K: k, Text: shortText(t, "btext"), Note: text(t, "note"), Sel: rapid.IntRange(0, 20).Draw(t, "sel")}
 	}
-	return Op{K: k, IDKind: []string{"live", "removed", "unknown"}[weighted(t, "idk", 3, 2, 1)], Sel: rapid.IntRange(0, 20).Draw(t, "sel"),
+	return Op{K: k, IDKind: []string{"live", "removed", "unknown", "special"}[weighted(t, "idk", 6, 4, 2, 1)], Sel: rapid.IntRange(0, 20).Draw(t, "sel"),
 		Raw: rapid.SampledFrom(unknownIDs).Draw(t, "raw")}
 }
 
+// titleLike: texts equal to the titles the table of contents is generated with (the drawn ones and the default).
+var titleLike = []string{"目录", "Contents", "T<&>"}
+
+// bodyText: a text of the usual classes; 1 in 12 a text equal to a TOC title.
+func bodyText(t *rapid.T, label string) string {
+	if weighted(t, label+"-k", 11, 1) == 1 {
+		return rapid.SampledFrom(titleLike).Draw(t, label+"-title")
+	}
+	return text(t, label)
+}
+
 func genHeading(t *rapid.T) Op {
-	return Op{K: "heading", Text: text(t, "htext"), Level: rapid.IntRange(1, 9).Draw(t, "hlevel"),
+	return Op{K: "heading", Text: bodyText(t, "htext"), Level: rapid.IntRange(1, 9).Draw(t, "hlevel"),
 		Variant: rapid.SampledFrom([]int{0, 0, 0, 0, 1, 2}).Draw(t, "hvar")}
 }
 
@@ -121,7 +160,7 @@ func genBodyOp(t *rapid.T, allowTOCParas bool) Op {
 	case "heading":
 		return genHeading(t)
 	case "para":
-		return Op{K: "para", Text: text(t, "ptext")}
+		return Op{K: "para", Text: bodyText(t, "ptext")}
 	case "table":
 		return Op{K: "table", Sel: rapid.IntRange(0, 1).Draw(t, "rows"), Level: rapid.IntRange(0, 1).Draw(t, "cols")}
 	}
@@ -152,7 +191,48 @@ func genTOCOp(t *rapid.T) Op {
 }
 
 func genReopen(t *rapid.T) Op {
-	return Op{K: "reopen", Fresh: weighted(t, "fresh", 3, 2) == 1}
+	return Op{K: "reopen", Fresh: weighted(t, "fresh", 3, 2) == 1, Foreign: genDialect(t)}
+}
+
+func flag(t *rapid.T, label string, yes, no int) bool { return weighted(t, label, yes, no) == 0 }
+
+// genDialect: in 2 of 5 reopens the saved package is re-written as another producer writes its notes parts and
+// numbering part (foreignparts.go); every feature of the dialect is drawn on its own.
+func genDialect(t *rapid.T) *Dialect {
+	if !flag(t, "foreign", 2, 3) {
+		return nil
+	}
+	d := &Dialect{
+		Prefix:     []string{"", "ns0", "-", "x", "W"}[weighted(t, "fprefix", 5, 2, 2, 1, 1)],
+		Apos:       flag(t, "fapos", 1, 3),
+		Compact:    flag(t, "fcompact", 1, 2),
+		Decl:       weighted(t, "fdecl", 3, 1, 1),
+		SelfClose:  flag(t, "fselfclose", 1, 1),
+		Comments:   flag(t, "fcomments", 1, 4),
+		RootExtra:  flag(t, "frootextra", 1, 3),
+		AttrRev:    flag(t, "fattrrev", 1, 2),
+		TypeNormal: weighted(t, "ftype", 3, 3, 2),
+		Seps:       weighted(t, "fseps", 3, 1, 3),
+		Notice:     flag(t, "fnotice", 1, 3),
+		SepsLast:   flag(t, "fsepslast", 1, 4),
+		Reverse:    flag(t, "freverse", 1, 3),
+		Split:      weighted(t, "fsplit", 3, 2, 1, 1),
+		NumExtras:  flag(t, "fnumextras", 1, 1),
+		NumReverse: flag(t, "fnumreverse", 1, 3),
+	}
+	d.WOther = d.Prefix != "" && d.Prefix != "-" && flag(t, "fwother", 1, 2)
+	// ids as other producers leave them: gaps, past 9 / 99 / 65535, not starting at 1
+	stride := func(label string) (int, int) {
+		if flag(t, label, 1, 1) {
+			return 0, 0
+		}
+		return rapid.SampledFrom([]int{1, 1, 2, 3, 7}).Draw(t, label+"-stride"),
+			rapid.SampledFrom([]int{0, 1, 2, 5, 8, 9, 10, 17, 98, 99, 100, 998, 65534, 100000}).Draw(t, label+"-shift")
+	}
+	d.Stride, d.Shift = stride("fnote-ids")
+	d.AbsStride, d.AbsShift = stride("fabs-ids")
+	d.NumStride, d.NumShift = stride("fnum-ids")
+	return d
 }
 
 // safeText: body text of a document that will be used as a template (no template syntax).
@@ -162,6 +242,9 @@ func safeText(t *rapid.T, label string) string {
 
 func genSafeListOp(t *rapid.T, prev *[]Item) Op {
 	o := genListOp(t, prev)
+	if len(o.Items) > 12 {
+		o.Items = o.Items[:12] // every document of a derived case is saved and judged after every op: keep them small
+	}
 	o.Text = safeText(t, "sltext")
 	for i := range o.Items {
 		o.Items[i].Text = safeText(t, "sltext")
@@ -197,7 +280,7 @@ func genDerived(t *rapid.T) []Op {
 		ops = append(ops, genNoteAdd(t))
 	}
 	if weighted(t, "open", 1, 4) == 1 {
-		ops = append(ops, Op{K: "reopen", Cold: weighted(t, "cold", 3, 1) == 1})
+		ops = append(ops, Op{K: "reopen", Cold: weighted(t, "cold", 3, 1) == 1, Foreign: genDialect(t)})
 		if weighted(t, "more", 2, 1) == 1 {
 			if lists {
 				ops = append(ops, genSafeListOp(t, &prev))
@@ -217,7 +300,7 @@ func genDerived(t *rapid.T) []Op {
 		switch weighted(t, "dk", w...) {
 		case 0:
 			k := []string{"rmfn", "rmen"}[weighted(t, "rk", 1, 1)]
-			o = Op{K: k, IDKind: []string{"live", "removed", "unknown"}[weighted(t, "idk", 6, 2, 1)], Sel: rapid.IntRange(0, 20).Draw(t, "sel"),
+			o = Op{K: k, IDKind: []string{"live", "removed", "unknown", "special"}[weighted(t, "idk", 12, 4, 2, 1)], Sel: rapid.IntRange(0, 20).Draw(t, "sel"),
 				Raw: rapid.SampledFrom(unknownIDs).Draw(t, "raw")}
 		case 1:
 			o = genNoteAdd(t)
@@ -226,7 +309,7 @@ func genDerived(t *rapid.T) []Op {
 		case 3:
 			o = Op{K: "para", Text: safeText(t, "ptext")}
 		case 4:
-			o = Op{K: "reopen", Cold: weighted(t, "cold", 3, 1) == 1}
+			o = Op{K: "reopen", Cold: weighted(t, "cold", 3, 1) == 1, Foreign: genDialect(t)}
 		default:
 			o = Op{K: "derive", Times: 1, Variant: weighted(t, "render", 5, 1)}
 		}
@@ -276,7 +359,7 @@ func genCase(t *rapid.T) Case {
 			}
 		}
 	case "notes":
-		n0 := rapid.IntRange(0, 3).Draw(t, "n0")
+		n0 := burst(t, "n0", 0, 3, 40, kit.Scale(33, 70))
 		for i := 0; i < n0; i++ {
 			k := []string{"footnote", "endnote"}[weighted(t, "addk", 1, 1)]
 			c.Ops = append(c.Ops, Op{K: k, Text: shortText(t, "btext"), Note: text(t, "note")})
@@ -294,7 +377,7 @@ func genCase(t *rapid.T) Case {
 		}
 	case "toc":
 		usedTP := false
-		n1 := rapid.IntRange(0, 8).Draw(t, "n1")
+		n1 := burst(t, "n1", 0, 8, 25, 110)
 		for i := 0; i < n1; i++ {
 			o := genBodyOp(t, !usedTP && weighted(t, "tp", 2, 1) == 1)
 			usedTP = usedTP || o.K == "tocparas"
@@ -363,7 +446,13 @@ func describe(c Case, res *kit.Result) {
 		}
 		res.Label("list:type:" + it.Type)
 		if it.Type == "bullet" {
-			res.Label("list:symbol:" + it.Bullet)
+			sym := "custom"
+			for _, b := range bullets {
+				if b == it.Bullet {
+					sym = b
+				}
+			}
+			res.Label("list:symbol:" + sym)
 		} else {
 			k := fmt.Sprintf("%s_%s_%d", it.Type, it.Bullet, it.Level)
 			if keyStarts[k] == nil {
@@ -376,6 +465,9 @@ func describe(c Case, res *kit.Result) {
 		}
 		if explicitStart && it.Type != "bullet" {
 			res.Label("list:start-judged")
+			if it.Start > 9 {
+				res.Label("list:start-more-digits")
+			}
 		}
 		if freshAfterList {
 			res.Label("list:item-after-reopen")
@@ -413,6 +505,11 @@ func describe(c Case, res *kit.Result) {
 			nHead++
 			hLevels[op.Level] = true
 			headLevels = append(headLevels, op.Level)
+			for _, tl := range titleLike {
+				if op.Text == tl {
+					res.Label("toc:heading-text-equals-a-title")
+				}
+			}
 			if op.Text == "" {
 				res.Label("toc:heading-empty-text")
 			} else if strings.TrimSpace(op.Text) == "" {
@@ -478,6 +575,15 @@ func describe(c Case, res *kit.Result) {
 				res.Label("reopen:fresh-process")
 				sig += ":fresh"
 			}
+			if d := op.Foreign; d != nil {
+				sig += fmt.Sprintf(":foreign:%s:t%d:s%d:b%d", d.Prefix, d.TypeNormal, d.Seps, d.Split)
+				if d.Stride > 0 {
+					sig += ":ids"
+				}
+				if d.NumStride > 0 || d.AbsStride > 0 {
+					sig += ":numids"
+				}
+			}
 			if seenListBeforeFresh {
 				freshAfterList = true
 			}
@@ -511,6 +617,17 @@ func describe(c Case, res *kit.Result) {
 			}
 		}
 	}
+	for _, c := range []struct {
+		what string
+		n    int
+	}{{"list-items", nItems}, {"note-adds", adds}, {"headings", nHead}} {
+		if c.n >= 10 {
+			res.Label("many:" + c.what + ">=10")
+		}
+		if c.n >= 65 {
+			res.Label("many:" + c.what + ">=65")
+		}
+	}
 	listsNT := nItems >= 3 && len(combos) >= 2
 	notesNT := adds >= 2 && removals >= 1
 	tocNT := nHead >= 3 && len(hLevels) >= 2 && aboveM && updAfterChange
@@ -534,14 +651,17 @@ func describe(c Case, res *kit.Result) {
 func TestC15(t *testing.T) {
 	kit.Main(t, kit.Spec[Case]{
 		ID: "C15", Level: "exploration",
-		Rule: "a case is one history of a drawn kind (lists | notes | toc | mixed | derived): lists = 1-10 (thorough 1-20) calls of AddListItem/AddBulletList/AddNumberedList/CreateMultiLevelList/AddListItem(nil) over every ListType, every BulletType, levels -1..10, starts 0..9 (every fourth item repeats the type/symbol/level of an earlier one with a new start); notes = AddFootnote/AddEndnote/AddFootnoteToRun/RemoveFootnote/RemoveEndnote with live, already-removed and unknown ids and XML-expressible texts; toc = headings (levels 1-9, texts incl. empty/blank), paragraphs, tables, an optional foreign paragraph-style TOC, GenerateTOC/AutoGenerateTOC (MaxLevel 1-9 or nil config), UpdateTOC x1-3, ListHeadings/GetHeadingCount; every kind with reopen (ToBytes->OpenFromMemory; the registries are per-document and an opened document continues from the parts it came with: its model keeps the notes and list items of the file); derived = several documents: document 0 gets 1-4 notes and now and then list items (1 case in 3: list items and now and then notes, and the later ops are mostly list ops), is saved and opened again in 4 of 5 cases (1 in 4 of those 'cold': no note call before the rendering), 1-2 documents are rendered from it (LoadTemplateFromDocument + RenderTemplateToDocument, 1 in 6 RenderToDocument), then 2-9 (thorough 2-16) ops each aimed at one of the documents (note removals by live/removed/unknown id, note adds, list ops, paragraphs, reopen, a further rendering from any document) - every document has its own model (a copy of its source's at the time of the rendering) and ALL documents are saved and judged after every op. non-trivial = lists: >=3 items of >=2 type/level/start combinations; notes: >=2 adds and >=1 successful removal; toc: >=3 headings of >=2 levels, one deeper than MaxLevel, and an update/regeneration after a heading was added to a document that already had a TOC. derived: >=1 rendered document and (>=2 note adds and >=1 successful removal after a rendering, or >=2 list items added after a rendering). distinct = distinct sequence of (op kind, list type+level | id kind | heading level | MaxLevel | repetitions | fresh | cold | document index)",
+		Rule: "a case is one history of a drawn kind (lists | notes | toc | mixed | derived): lists = 1-10 (thorough 1-20) calls of AddListItem/AddBulletList/AddNumberedList/CreateMultiLevelList/AddListItem(nil) over every ListType, every BulletType, levels -1..10, starts 0..9 (every fourth item repeats the type/symbol/level of an earlier one with a new start); notes = AddFootnote/AddEndnote/AddFootnoteToRun/RemoveFootnote/RemoveEndnote with live, already-removed and unknown ids and XML-expressible texts; toc = headings (levels 1-9, texts incl. empty/blank), paragraphs, tables, an optional foreign paragraph-style TOC, GenerateTOC/AutoGenerateTOC (MaxLevel 1-9 or nil config), UpdateTOC x1-3, ListHeadings/GetHeadingCount; every kind with reopen (ToBytes->OpenFromMemory; the registries are per-document and an opened document continues from the parts it came with: its model keeps the notes and list items of the file); in 2 of 5 reopens the saved package is first re-written by the harness the way ANOTHER PRODUCER writes word/footnotes.xml, word/endnotes.xml and word/numbering.xml (every feature drawn on its own: another namespace prefix / the default namespace / the prefix w bound to some other namespace, single quotes, no white space, no XML declaration, self-closed empty elements, comments, further namespace declarations + mc:Ignorable, reversed attribute order, w:type=\"normal\" written out on all or every second ordinary note, no special entries / Word's separator pair / a continuationNotice entry / special entries after the notes, notes in reverse order, note ids n -> n*stride+shift with stride 1,2,3,7 and shift 0..100000, the note body in Word's shape or over two runs / two paragraphs, w:nsid+w:multiLevelType+w:tmpl+w:tplc+w:numIdMacAtCleanup, abstractNumIds and numIds renumbered the same way (numIds in the main part too), definitions and instances in reverse order) - the harness verifies with its own readers that the re-written package holds the same notes and the same list paragraphs with the same level definitions, then renumbers the ids of its model; small-probability corners: start numbers 10..100000 (1 item in 8), bullet symbols other than the five constants (1 in 12: multi-byte, ASCII, XML-special, \"%1.\", with \"_\"), 9..70 items in one CreateMultiLevelList / 9..33 (thorough ..70) initial notes / 9..110 initial body ops of a toc case (1 case in 25/40/25), heading and paragraph texts equal to a TOC title (1 in 12), body texts equal to a note marker, removal of the id of a special entry; derived = several documents: document 0 gets 1-4 notes and now and then list items (1 case in 3: list items and now and then notes, and the later ops are mostly list ops), is saved and opened again in 4 of 5 cases (1 in 4 of those 'cold': no note call before the rendering), 1-2 documents are rendered from it (LoadTemplateFromDocument + RenderTemplateToDocument, 1 in 6 RenderToDocument), then 2-9 (thorough 2-16) ops each aimed at one of the documents (note removals by live/removed/unknown id, note adds, list ops, paragraphs, reopen, a further rendering from any document) - every document has its own model (a copy of its source's at the time of the rendering) and ALL documents are saved and judged after every op. non-trivial = lists: >=3 items of >=2 type/level/start combinations; notes: >=2 adds and >=1 successful removal; toc: >=3 headings of >=2 levels, one deeper than MaxLevel, and an update/regeneration after a heading was added to a document that already had a TOC. derived: >=1 rendered document and (>=2 note adds and >=1 successful removal after a rendering, or >=2 list items added after a rendering). distinct = distinct sequence of (op kind, list type+level | id kind | heading level | MaxLevel | repetitions | fresh | cold | document index)",
 		Gen:  genCase, Run: run, Findings: findings, Fixed: fixedCases,
 		MustSee: map[string]float64{"kind:lists": 0.15, "kind:notes": 0.12, "kind:toc": 0.15, "kind:mixed": 0.03, "reopen": 0.2, "reopen:fresh-process": 0.08,
 			"list:level-outside-0-8": 0.07, "list:same-definition-key-other-start": 0.05, "list:start-judged": 0.15, "rm:live": 0.05, "rm:unknown": 0.08, "rm:removed": 0.004,
 			"toc:update-after-change": 0.04, "toc:heading-at-max-level": 0.05, "toc:heading-empty-text": 0.06, "toc:max-level-not-3": 0.12, "toc:update-repeated": 0.05,
 			"toc:auto-with-existing-toc": 0.05, "toc:paragraph-style": 0.008, "nontrivial:lists": 0.12, "nontrivial:notes": 0.05, "nontrivial:toc": 0.04,
 			"kind:derived": 0.05, "derived:base-has-notes-from-file": 0.03, "rm:note-from-file": 0.03, "rm:inherited-note": 0.02, "rm:on-derived": 0.02, "rm:on-base-after-derive": 0.02,
-			"derived:base-cold": 0.004, "list:item-after-derive": 0.02, "nontrivial:derived": 0.03},
+			"derived:base-cold": 0.004, "list:item-after-derive": 0.02, "nontrivial:derived": 0.03,
+			"reopen:foreign": 0.05, "foreign:notes-in-file": 0.025, "foreign:type-normal": 0.015, "foreign:note-ids-renumbered": 0.015, "foreign:special-entries": 0.015,
+			"foreign:numbering-in-file": 0.02, "foreign:numbering-ids-renumbered": 0.015, "foreign:prefix": 0.02, "list:start-more-digits": 0.03, "list:symbol:custom": 0.008,
+			"many:list-items>=10": 0.008, "many:headings>=10": 0.004, "many:note-adds>=10": 0.002},
 		Assumptions: []string{
 			"numbering, notes and TOC are read from word/numbering.xml, word/footnotes.xml, word/endnotes.xml and the w:sdt[docPartGallery='Table of Contents'] / TOCn-styled paragraphs of word/document.xml by the harness's own readers",
 			"AddNumberedList and AddBulletList name no start number: w:start is not judged for their items; StartNumber is judged for AddListItem/CreateMultiLevelList items of ordered types only (the field is documented as 'ordered lists only')",
@@ -551,6 +671,8 @@ func TestC15(t *testing.T) {
 			"a TOC entry's text is the text of the placeholder control before the entry paragraph plus the paragraph's run text minus the trailing tab+page number",
 			"documents rendered from a document (TemplateEngine) start as copies of it: each has the notes and list items of its source at the time of the rendering and from then on a history of its own; 'that document's notes part' and 'per-document counts and removals' are judged for every document of the case after every op, whichever document the op was aimed at",
 			"body texts of documents that are used as templates contain no template syntax; whether the engine renders a document at all is not judged here (a refused rendering is counted and skipped); RenderToDocument appends the text of the body again, so the body (not the lists and notes) of such a document is not modelled",
+			"a reopened document need not have been written by this library: the notes parts and the numbering part re-written by the harness in another producer's dialect are legal WordprocessingML that means the same document (verified per case with the harness's own readers before the library sees it; a mismatch is reported as C15.0.harness, never as a property failure); w:type=\"normal\" is the default value of the attribute, so such an entry is an ordinary note; entries typed separator / continuationSeparator / continuationNotice are not notes (their ids are unknown ids for RemoveFootnote/RemoveEndnote)",
+			"BulletType is a string type: a symbol other than the five constants is a requested symbol like any other",
 			"GenerateTOC is an append constructor (C08): it is not called a second time on a document that has a TOC; AutoGenerateTOC documents that it replaces an existing TOC",
 		},
 	})
